@@ -95,7 +95,7 @@ pub fn run(args: &Args) -> Out {
         let v: Value = serde_json::from_str(&std::fs::read_to_string(p).ok()?).ok()?;
         v["replay"]["case"].as_u64().map(|x| x as usize)
     });
-    for idx in 0..args.n(64, 3200) {
+    for idx in 0..args.n(128, 3200) {
         if let Some(o) = only {
             if o != idx {
                 continue;
